@@ -192,7 +192,7 @@ func (t *Term) addMon(c *big.Int, preds []*PAtom, atom *IAtom) {
 	if c.Sign() == 0 {
 		return
 	}
-	tick()
+	tickN(1 + len(preds)*len(preds)/4)
 	k := monKey(preds, atom)
 	if m, ok := t.mons[k]; ok {
 		m.c = new(big.Int).Add(m.c, c)
@@ -244,6 +244,7 @@ func (t *Term) Scale(c *big.Int) *Term {
 }
 
 func mergePreds(a, b []*PAtom) []*PAtom {
+	tickN(1 + (len(a)+len(b))/2)
 	out := make([]*PAtom, 0, len(a)+len(b))
 	i, j := 0, 0
 	for i < len(a) || j < len(b) {
